@@ -4,6 +4,7 @@ package p20
 import (
 	"encoding/json"
 	"fmt"
+	"regexp"
 	"runtime/debug"
 	"sort"
 	"strings"
@@ -85,7 +86,16 @@ func (p *c20) scenario(c fw.Case) (*gen.Scenario, *fw.Rand) {
 	if r.Chance(0.4) {
 		o.FlowType = fw.Pick(r, []string{"messaging", "messaging_background", "messaging_offline", "voice"})
 	}
-	return gen.Scen(r, o), r
+	scen := gen.Scen(r, o)
+	// a stream of its own: the base scenario stays what gen.Scen made of (seed, index)
+	pr := fw.NewRand(c.Seed, "C20/plant", c.Index)
+	diversifyServices(scen, pr)
+	if pr.Chance(0.6) {
+		pl := newPlanter(pr, scen, []float64{0.3, 0.6, 1}[pr.Intn(3)], pr.Bool(), false)
+		pl.plantScenario()
+		scen.Notes = append(scen.Notes, fmt.Sprintf("planted %d references", pl.slots))
+	}
+	return scen, r
 }
 
 func (p *c20) Run(c fw.Case) fw.Result {
@@ -102,13 +112,19 @@ func (p *c20) Run(c fw.Case) fw.Result {
 		return res
 	}
 	restartP := []float64{0, 0.5, 1}[r.Intn(3)]
-	ck := &checker{res: &res, scen: scen, rn: rn, flows: map[string]*flowInfo{}}
+	ck := &checker{res: &res, scen: scen, rn: rn, flows: map[string]*flowInfo{}, reported: map[string]bool{}}
+	// which templates a run evaluates is not an event: the verif-guarded observer of flows/runs tells (process global,
+	// the worker is single threaded; removed again when the case is over)
+	obs := &observed{}
+	installObserver(obs.add)
+	defer removeObserver()
 	rn.RunAll(func(rec *drive.CallRecord) {
+		seen := obs.take()
 		observe(&res, rec)
 		if rec.Kind == "unreadable" {
 			return
 		}
-		ck.check(rec)
+		ck.check(rec, seen)
 		if rec.OK() && rn.Waiting() && r.Chance(restartP) {
 			if err := rn.Restart(); err == nil {
 				res.Count("seen.restarts", 1)
@@ -184,7 +200,9 @@ type nodeInfo struct {
 type flowInfo struct {
 	uuid, name, lang string
 	nodes            map[string]*nodeInfo
+	nodeOrder        []string
 	loc              localization
+	tplIndex         map[string]string // template text → "type.property" holding it (built on demand)
 
 	results      map[string][]string // key → listed categories
 	waitingExits map[string]bool
@@ -200,6 +218,22 @@ type checker struct {
 	flows      map[string]*flowInfo // nil entry = inspection unusable
 	nonTrivial bool
 	notes      []string
+	reported   map[string]bool // run|dependency already reported by the definition-derived template clause
+}
+
+// observed collects what the template observer reports during one engine call.
+type obsTpl struct{ run, tpl string }
+
+type observed struct{ list []obsTpl }
+
+func (o *observed) add(run flows.Run, tpl string) {
+	o.list = append(o.list, obsTpl{string(run.UUID()), tpl})
+}
+
+func (o *observed) take() []obsTpl {
+	l := o.list
+	o.list = nil
+	return l
 }
 
 func (ck *checker) sample() any {
@@ -286,6 +320,7 @@ func (ck *checker) flow(f flows.Flow) *flowInfo {
 	fi.loc = localization(def.Localization)
 	for _, n := range def.Nodes {
 		fi.nodes[n.UUID] = &nodeInfo{uuid: n.UUID, actions: n.Actions, router: n.Router}
+		fi.nodeOrder = append(fi.nodeOrder, n.UUID)
 	}
 	var insp struct {
 		Dependencies []map[string]any `json:"dependencies"`
@@ -337,16 +372,20 @@ type sprintView struct {
 	byStep map[string][]map[string]any
 	langs  []string // language preference of runs in this sprint; nil = changed during the sprint (base only)
 	entry  string
+	seen   map[string]bool // run + "\x00" + template: reported by the template observer in this sprint
 }
 
-func (ck *checker) check(rec *drive.CallRecord) {
+func (ck *checker) check(rec *drive.CallRecord, seen []obsTpl) {
 	res := ck.res
 	if !rec.OK() || rec.Session == nil {
 		res.Count("calls_not_checked(error/panic/budget)", 1)
 		return
 	}
 	sess := rec.Session
-	sv := &sprintView{rec: rec, byStep: map[string][]map[string]any{}, entry: rec.Kind}
+	sv := &sprintView{rec: rec, byStep: map[string][]map[string]any{}, entry: rec.Kind, seen: map[string]bool{}}
+	for _, o := range seen {
+		sv.seen[o.run+"\x00"+o.tpl] = true
+	}
 	if rec.Kind == "resume" {
 		sv.entry += ":" + rec.ResumeType
 	}
@@ -393,6 +432,7 @@ func (ck *checker) check(rec *drive.CallRecord) {
 			ck.checkWaitExit(sv, run, fi, before)
 		}
 		ck.checkDeps(sv, run, fi, before, had)
+		ck.checkEvaluated(sv, run, fi, seen)
 	}
 }
 
@@ -478,6 +518,9 @@ func (ck *checker) resultStored(sv *sprintView, run flows.Run, fi *flowInfo, key
 	res.Count("clause.result_key.from_"+how, 1)
 	for _, w := range strings.Split(who, "+") {
 		res.Count("saved_by."+w, 1)
+		if _, fixedCats := fixedCategories[w]; fixedCats && category != "" && !strings.Contains(who, "+") {
+			res.Count("saved."+w+"."+category, 1)
+		}
 	}
 	if category != "" {
 		res.Seen("saved_categories", category)
@@ -599,6 +642,7 @@ func (ck *checker) demand(sv *sprintView, run flows.Run, fi *flowInfo, r ref, cu
 	what := "dependency-undeclared:" + r.Kind
 	if r.Via == "template" {
 		what = "template-reference-undeclared:" + r.Kind
+		ck.reported[string(run.UUID())+"|"+k] = true
 	}
 	res.Violate("coverage-gap|"+culprit+"|"+what,
 		fmt.Sprintf("a run of flow %q executed %s which names %s %q (%s) but the inspection's dependencies do not list it", fi.name, culprit, r.Kind, r.ID, r.Via),
@@ -612,6 +656,14 @@ func (ck *checker) demandTemplates(sv *sprintView, run flows.Run, fi *flowInfo, 
 			continue
 		}
 		ck.res.Count("templates_scanned", 1)
+		if observerAvailable {
+			// how good the definition-derived guess "this template was evaluated" is (statistics only)
+			if sv.seen[string(run.UUID())+"\x00"+t] {
+				ck.res.Count("templates_scanned.seen_by_observer", 1)
+			} else {
+				ck.res.Count("templates_scanned.not_seen_by_observer(guess_too_wide)", 1)
+			}
+		}
 		refs, understood := templateRefs(t)
 		if !understood {
 			ck.res.Count("templates_not_modelled(no_demand)", 1)
@@ -623,6 +675,139 @@ func (ck *checker) demandTemplates(sv *sprintView, run flows.Run, fi *flowInfo, 
 				seen[r.key()] = true
 				ck.demand(sv, run, fi, r, culprit, "template", nodeUUID)
 			}
+		}
+	}
+}
+
+// (3b) templates the run is KNOWN to have evaluated (template observer): every global / field they name must be a
+// dependency of the run's flow, whichever property the template came from - also one the flow spec (and therefore
+// the definition-derived clause above, and inspection's engine tags) does not know to be a template.
+func (ck *checker) checkEvaluated(sv *sprintView, run flows.Run, fi *flowInfo, seen []obsTpl) {
+	res := ck.res
+	id := string(run.UUID())
+	done := map[string]bool{}
+	for _, o := range seen {
+		if o.run != id || done[o.tpl] {
+			continue
+		}
+		done[o.tpl] = true
+		res.Count("evaluated.templates", 1)
+		if !strings.Contains(o.tpl, "@") {
+			continue
+		}
+		holder := fi.holderOf(o.tpl)
+		res.Seen("evaluated_properties", holder)
+		refs, understood := templateRefs(o.tpl)
+		if !understood {
+			res.Count("evaluated.templates_not_modelled(no_demand)", 1)
+			continue
+		}
+		if len(refs) == 0 {
+			continue
+		}
+		res.Count("evaluated.templates_with_references", 1)
+		dd := map[string]bool{}
+		for _, r := range refs {
+			k := r.key()
+			if dd[k] {
+				continue
+			}
+			dd[k] = true
+			ck.nonTrivial = true
+			res.Count("clause.dep.evaluated", 1)
+			res.Count("clause.dep.evaluated."+r.Kind, 1)
+			res.Count("clause.dep.evaluated.by."+holder, 1)
+			if strings.HasPrefix(r.ID, "zg") || strings.HasPrefix(r.ID, "zf") {
+				res.Count("clause.dep.evaluated.planted_reference", 1)
+				res.Seen("evaluated_properties_with_planted_reference", holder)
+			}
+			if fi.deps[k] {
+				if fi.depMissing[k] {
+					res.Count("dep.missing_asset_listed", 1)
+				}
+				continue
+			}
+			if ck.reported[id+"|"+k] {
+				res.Count("evaluated.undeclared_already_reported_by_definition_clause", 1)
+				continue
+			}
+			res.Violate("coverage-gap|"+holder+"|evaluated-template-reference-undeclared:"+r.Kind,
+				fmt.Sprintf("a run of flow %q evaluated the template %q (held by %s) which names %s %q but the inspection's dependencies do not list it", fi.name, o.tpl, holder, r.Kind, r.ID),
+				ck.witness(map[string]any{"call_index": sv.rec.Index, "entry": sv.entry, "flow": fi.uuid, "run": id, "template": o.tpl, "held_by": holder,
+					"dependency": map[string]string{"type": r.Kind, "identity": r.ID, "via": "evaluated template"}, "observed_via": "template observer", "inspection": json.RawMessage(fi.inspJSON)}))
+		}
+	}
+}
+
+// holderOf names the property of the flow definition that holds the given template text: "say_msg.audio_url",
+// "router:switch.cases.arguments", "send_msg.text" (also for a translation of it), or "engine" for a template
+// that is not in the definition (the resthook payload).
+func (fi *flowInfo) holderOf(tpl string) string {
+	if fi.tplIndex == nil {
+		idx := map[string]string{}
+		items := map[string]string{} // uuid of a localizable item → its holder prefix
+		for _, nu := range fi.nodeOrder {
+			n := fi.nodes[nu]
+			for _, a := range n.actions {
+				typ := str(a["type"])
+				items[str(a["uuid"])] = typ
+				indexStrings(idx, typ, a)
+			}
+			if n.router != nil {
+				rt := "router:" + str(n.router["type"])
+				indexStrings(idx, rt, n.router)
+				for _, c := range arr(n.router["cases"]) {
+					items[str(obj(c)["uuid"])] = rt + ".cases"
+				}
+				for _, c := range arr(n.router["categories"]) {
+					items[str(obj(c)["uuid"])] = rt + ".categories"
+				}
+			}
+		}
+		langs := make([]string, 0, len(fi.loc))
+		for l := range fi.loc {
+			langs = append(langs, l)
+		}
+		sort.Strings(langs)
+		for _, l := range langs {
+			lm := obj(fi.loc[l])
+			uuids := make([]string, 0, len(lm))
+			for u := range lm {
+				uuids = append(uuids, u)
+			}
+			sort.Strings(uuids)
+			for _, u := range uuids {
+				if pre, ok := items[u]; ok {
+					indexStrings(idx, pre, lm[u])
+				}
+			}
+		}
+		fi.tplIndex = idx
+	}
+	if h, ok := fi.tplIndex[tpl]; ok {
+		return h
+	}
+	return "engine"
+}
+
+func indexStrings(idx map[string]string, prefix string, v any) {
+	switch t := v.(type) {
+	case string:
+		if _, ok := idx[t]; !ok && strings.Contains(t, "@") {
+			idx[t] = prefix
+		}
+	case []any:
+		for _, x := range t {
+			indexStrings(idx, prefix, x)
+		}
+	case map[string]any:
+		keys := make([]string, 0, len(t))
+		for k := range t {
+			keys = append(keys, k)
+		}
+		sort.Strings(keys)
+		for _, k := range keys {
+			indexStrings(idx, prefix+"."+k, t[k])
 		}
 	}
 }
@@ -642,6 +827,74 @@ func (ck *checker) checkDeps(sv *sprintView, run flows.Run, fi *flowInfo, before
 		timeout := before.Status == flows.RunStatusWaiting && sv.rec.ResumeType == "wait_timeout"
 		ck.stepDeps(sv, run, fi, st, false, timeout)
 	}
+}
+
+var cmdRe = regexp.MustCompile(`cmd=([a-z]+)`)
+
+func outcomeOf(url string) string {
+	m := cmdRe.FindStringSubmatch(url)
+	if m == nil {
+		return "success"
+	}
+	switch m[1] {
+	case "gone":
+		return "gone"
+	case "unavailable":
+		return "error5xx"
+	case "connerr":
+		return "connection_error"
+	case "badjson":
+		return "success_not_json"
+	}
+	return "success"
+}
+
+// servicePath counts on which outcome path of its service a result-saving action ran (what the scenario's fake
+// services will answer is known from the definition: resthook subscribers / webhook URL by "cmd=").
+func (ck *checker) servicePath(a map[string]any) {
+	res := ck.res
+	switch str(a["type"]) {
+	case "call_resthook":
+		if str(a["result_name"]) == "" {
+			return
+		}
+		class := "missing_resthook"
+		for _, h := range listOfM(ck.scen.Assets["resthooks"]) {
+			if h["slug"] != a["resthook"] {
+				continue
+			}
+			set := map[string]bool{}
+			for _, sub := range stringsOfAny(h["subscribers"]) {
+				set[outcomeOf(sub)] = true
+			}
+			var outs []string
+			for o := range set {
+				outs = append(outs, o)
+			}
+			sort.Strings(outs)
+			class = "subscribers:" + strings.Join(outs, "+")
+			if len(outs) == 0 {
+				class = "subscribers:none"
+			}
+		}
+		res.Count("service_path.call_resthook."+class, 1)
+	case "call_webhook":
+		if str(a["result_name"]) == "" {
+			return
+		}
+		if u := str(a["url"]); strings.HasPrefix(u, "http://localhost/") && !strings.Contains(u, "@(1") {
+			res.Count("service_path.call_webhook."+outcomeOf(u), 1)
+		} else {
+			res.Count("service_path.call_webhook.other_url", 1)
+		}
+	}
+}
+
+func stringsOfAny(v any) []string {
+	if ss, ok := v.([]string); ok {
+		return ss
+	}
+	return stringsOf(v)
 }
 
 func (ck *checker) stepDeps(sv *sprintView, run flows.Run, fi *flowInfo, step flows.Step, withActions, timeoutRoute bool) {
@@ -681,6 +934,7 @@ func (ck *checker) stepDeps(sv *sprintView, run flows.Run, fi *flowInfo, step fl
 	for _, a := range executed {
 		typ := str(a["type"])
 		res.Count("executed."+typ, 1)
+		ck.servicePath(a)
 		for _, r := range actionFixedRefs(a) {
 			fixed[r.key()] = typ
 			ck.note("reference " + r.Kind + " by " + typ)
